@@ -12,13 +12,29 @@ class PathInfo:
         self.literals = []
         self.events = []      # nodes with non-inlined calls/drops, in order
         self.end = path[-1][0]
-        for (n, lab) in path:
+        self.infeasible = False
+        sym = None
+        for i, (n, lab) in enumerate(path):
             if n.ci is not None and not n.inlined:
                 self.events.append(n)
             if n.kind == "switch" and isinstance(lab, tuple):
                 e = S.switch_expr(n)
                 if isinstance(e, tuple) and e and e[0] == "const":
                     continue
+                if _mentions(e, ("phi",)) or _mentions_inlined_ret(S, e):
+                    # the flow-insensitive value merges several definitions (e.g. the result of an expanded boolean helper with
+                    # `a && b` inside): take the value this operand has *on this path*; a constant decides feasibility
+                    if sym is None:
+                        sym = SymExec(S, path)
+                    e2 = sym.switch_vals.get(i)
+                    if isinstance(e2, tuple) and e2 and e2[0] == "const" and isinstance(e2[1], int):
+                        vals = [v for v, _ in n.term["targets"]]
+                        taken = lab[1]
+                        if (taken == "otherwise" and e2[1] in vals) or (taken != "otherwise" and taken != e2[1]):
+                            self.infeasible = True
+                        continue
+                    if e2 is not None and not _mentions(e2, ("phi",)) and not _mentions_inlined_ret(S, e2):
+                        e = e2
                 for lit in normalise_literal(e, lab[1], n.term):
                     self.literals.append(lit)
 
@@ -46,6 +62,24 @@ class PathInfo:
         return " & ".join("%s%s" % ("" if tr is True else ("!" if tr is False else ""), fmt_atom(a) + ("" if tr in (True, False) else "=%s" % (tr,))) for a, tr in self.literals) or "true"
 
 
+def _inlined_sites(S):
+    c = getattr(S, "_inlined_sites", None)
+    if c is None:
+        # direct (or devirtualised) calls only: wrappers and higher-order combinators keep their summarised `ret` value
+        c = {"%s:bb%d" % (x.call_node.ctx.fn.npath, x.call_node.bb) for x in S.ctxs if x.call_node is not None and x.via in ("call", "virtual") and x.call_node.term["k"] == "call"}
+        S._inlined_sites = c
+    return c
+
+
+def _mentions_inlined_ret(S, e):
+    """`ret` of a call that was expanded in S: the resolver could not give the callee's result a single value."""
+    if isinstance(e, tuple):
+        if e and e[0] == "ret" and len(e) > 3 and e[3] in _inlined_sites(S):
+            return True
+        return any(_mentions_inlined_ret(S, x) for x in e)
+    return False
+
+
 def fmt_atom(a):
     if a[0] == "cmp":
         return "(%s %s %s)" % (fmt(a[2]), a[1], fmt(a[3]))
@@ -67,6 +101,8 @@ def normal_paths(S, frm=None, limit=5000, max_visits=1):
         if not (end.kind == "return" and end.ctx is S.root_ctx):
             continue   # diverging ends (internal panics, unreachable) are not normal paths
         pi = PathInfo(S, p)
+        if pi.infeasible:
+            continue   # a switch on this path tests a value that is a different constant on this very path
         out.append(pi)
     return out
 
@@ -234,6 +270,7 @@ class SymExec:
         self.stores = []      # (target expr, value expr, node)
         self.calls = []       # (node, args) for non-expanded calls
         self.retval = None
+        self.switch_vals = {}   # index in path -> value of the switch operand on this path
         self._run(path)
 
     # -- evaluation ---------------------------------------------------------------------------
@@ -319,6 +356,7 @@ class SymExec:
             t = n.term
             if t["k"] == "switch" and isinstance(lab, tuple):
                 e = self.op(ctx, t["op"])
+                self.switch_vals[i] = e
                 if not (isinstance(e, tuple) and e and e[0] == "const"):
                     for lit in normalise_literal(e, lab[1], t):
                         self.literals.append(lit)
